@@ -76,7 +76,20 @@ def write_replay_file(run, prog: Program, h, test, replay, extra=None):
     return path
 
 
+_LOCK = None
+
+
+def _serialize(pid):
+    """two runs of the SAME property share cargo artifacts of the same crate name in the dependency cache; serialize them"""
+    global _LOCK
+    import fcntl
+    os.makedirs(fw.CACHE, exist_ok=True)
+    _LOCK = open(os.path.join(fw.CACHE, "lock-%s" % pid.lower()), "w")
+    fcntl.flock(_LOCK, fcntl.LOCK_EX)
+
+
 def run_check(pid, tier, seed, keep=False):
+    _serialize(pid)
     run = Run(pid, tier, seed, keep)
     known = load_known()
     mod = importlib.import_module("props." + pid.lower())
